@@ -286,7 +286,7 @@ Qed.
 
 (* ------------------------------------------------------------------ collect_const! *)
 
-Lemma build_loop_spec : forall items done cap,
+Lemma build_loop_spec {A} : forall (items done : list A) cap,
   length done <= cap ->
   build_loop items (map Some done ++ repeat None (cap - length done)) (length done)
   = if length done + length items <=? cap
@@ -319,7 +319,7 @@ Proof.
       reflexivity.
 Qed.
 
-Lemma build_array_spec : forall cap items,
+Lemma build_array_spec {A} : forall cap (items : list A),
   build_array cap items = if length items =? cap then CBuilt (map Some items) else CPanicked.
 Proof.
   intros cap items. unfold build_array.
@@ -334,7 +334,7 @@ Qed.
 
 (** a [Built] result has every slot written, by the second pass's items, and the two
     passes saw the same number of items *)
-Theorem collect_built_full : forall items1 items2 slots,
+Theorem collect_built_full {A} : forall (items1 items2 : list A) slots,
   collect_const_m items1 items2 = CBuilt slots ->
   fully_init slots /\ slots = map Some items2 /\ length items2 = length items1.
 Proof.
@@ -346,7 +346,7 @@ Qed.
 
 (** a deterministic chain (both const evaluations yield the same items): the array is
     exactly what std's collect gives *)
-Theorem collect_two_pass_agree : forall items,
+Theorem collect_two_pass_agree {A} : forall (items : list A),
   collect_const_m items items = CBuilt (map Some (std_collect items)).
 Proof.
   intro items. unfold collect_const_m, compute_length, std_collect.
@@ -355,7 +355,7 @@ Qed.
 
 (** passes that disagree on the count are caught by [assert!(length == CAP)] (or by the
     array index) instead of returning a partly written array *)
-Theorem collect_disagree_panics : forall items1 items2,
+Theorem collect_disagree_panics {A} : forall (items1 items2 : list A),
   length items1 <> length items2 -> collect_const_m items1 items2 = CPanicked.
 Proof.
   intros items1 items2 H. unfold collect_const_m, compute_length. rewrite build_array_spec.
